@@ -92,6 +92,51 @@ func opMiDec(args []Sx) Sx {
 	return L(Sym("dec"), B(out), Sym("more"))
 }
 
+// mi_dec_retry: like mi_dec on a plain reader, then n more Read calls on the same
+// decoder after the first error / end of stream.
+func opMiDecRetry(args []Sx) Sx {
+	enc := draftOf(args[0])
+	stream, digest, maxrs := args[1].B, string(args[2].B), args[3].U64()
+	sizes := args[4].L
+	d, err := enc.NewDecoder(bytes.NewReader(stream), digest, maxrs)
+	if err != nil {
+		return L(Sym("newerr"))
+	}
+	out := []byte{}
+	limit := 4 * (len(stream) + 1)
+	status := "more"
+	if len(sizes) > 0 {
+		for i := 0; i < limit; i++ {
+			dst := make([]byte, sizes[i%len(sizes)].Int())
+			n, err := d.Read(dst)
+			out = append(out, dst[:n]...)
+			if err == io.EOF {
+				status = "eof"
+				break
+			}
+			if err != nil {
+				status = "err"
+				break
+			}
+		}
+	}
+	retries := []Sx{}
+	if status != "more" {
+		for i := 0; i < args[5].Int(); i++ {
+			dst := make([]byte, 64)
+			n, err := d.Read(dst)
+			st := "more"
+			if err == io.EOF {
+				st = "eof"
+			} else if err != nil {
+				st = "err"
+			}
+			retries = append(retries, L(B(dst[:n]), Sym(st)))
+		}
+	}
+	return L(Sym("dec"), B(out), Sym(status), L(retries...))
+}
+
 func drain(d io.Reader, out []byte) Sx {
 	buf := make([]byte, 1000000)
 	for i := 0; i < 1000000; i++ {
@@ -141,4 +186,5 @@ func init() {
 	regOp("b64", opB64)
 	regOp("mi_enc", opMiEnc)
 	regOp("mi_dec", opMiDec)
+	regOp("mi_dec_retry", opMiDecRetry)
 }
